@@ -626,6 +626,12 @@ class Interp(ExprMixin):
                     kw2 = dict(pkw)
                     kw2.update(kwargs)
                     return self.call_value(inner, list(pargs) + list(args), kw2, st, node)
+        if isinstance(callee, Poly) and callee.single_atom() is not None:
+            # obj(...) with obj an instance of a package class that defines __call__
+            cls_ = self.class_of(callee)
+            fc_ = cls_.find_method('__call__') if cls_ is not None else None
+            if fc_ is not None:
+                return self.call_internal(fc_, args, kwargs, st, node, self_val=callee)
         STATS['calls_unresolved'] += 1
         self.log(st, 'call', node, callee='?', bound={}, fn=callee, args=args, kwargs=kwargs)
         return app('callv', P(callee), *[a if isinstance(a, (Poly, Tup)) else P(a) for a in args], **kwargs)
@@ -679,8 +685,10 @@ class Interp(ExprMixin):
         if f.cls is not None and self_val is None and not f.is_static and not f.is_classmethod \
                 and args and f.params() and f.params()[0][0] == 'self':
             self_val, args = args[0], args[1:]
-        if f.is_classmethod and self_val is None:
-            self_val = Const(f.cls)
+        if f.is_classmethod and (self_val is None or not (isinstance(self_val, Const) and isinstance(self_val.value, ClassInfo))):
+            # cls is the class, also when the class method is reached through an instance (obj.check(...))
+            c_ = self.class_of(self_val) if self_val is not None else None
+            self_val = Const(c_ if c_ is not None else f.cls)
         try:
             bound = self.bind(f, args, kwargs, self_val=self_val, st=st, node=node)
         except BindError as e:
@@ -738,7 +746,9 @@ class Interp(ExprMixin):
             return obj
         ev = self.log_call(st, init, bound, node, args=args, kwargs=kwargs, new=cls.key, result=obj)
         if cls.key in self.inline_ctor and self.should_inline(init) or \
-                (cls.key in self.inline_ctor and init.key not in self.stack):
+                (cls.key in self.inline_ctor and init.key not in self.stack) or \
+                (init.key not in known_functions() and init.key not in self.stack and len(self.stack) <= self.max_depth):
+            # (the constructor of a class introduced after the rules were written is followed like any new helper)
             try:
                 self.inline(init, bound, st, node)
             except Fork:
@@ -930,6 +940,13 @@ class Interp(ExprMixin):
         if s.exc is not None:
             e = s.exc.func if isinstance(s.exc, ast.Call) else s.exc
             exc = dotted(e) or '?'
+            if isinstance(s.exc, ast.Name) and s.exc.id in st.env:
+                # `raise error` with error = ValueError(...) built earlier
+                v_ = st.env[s.exc.id]
+                a_ = v_.single_atom() if isinstance(v_, Poly) else None
+                if a_ is not None and a_[0] == 'app' and (str(a_[1]).endswith('Error') or str(a_[1]).endswith('Exception')
+                                                           or str(a_[1]).endswith('Warning')):
+                    exc = str(a_[1]).split(':')[-1].split('.')[-1]
             if isinstance(s.exc, ast.Call):
                 for a in s.exc.args:
                     self.eval(a, st)
